@@ -203,7 +203,7 @@ def edit_step(op: int, k: int, v: str, pre_has: bool, pre_chart: bool, pre_ser: 
             sf.charts[0].description = v.strip()
     else:
         ch = SMChart()                             # an empty chart whose six fields are assigned in another order than documented
-        ch.notes = "0000"; ch.radarvalues = "0,0"; ch.meter = "7"; ch.difficulty = "Hard"; ch.description = v.strip(); ch.stepstype = "dance-single"
+        ch.notes = "0000"; ch.radarvalues = "0,0"; ch.meter = "7"; ch.difficulty = "Hard"; ch.description = "d x"; ch.stepstype = "dance-single"
         sf.charts.append(ch)
     return _check_roundtrip(sf)
 
